@@ -163,7 +163,7 @@ def cond_edges(fn, atom_pred):
     return out
 
 
-def only_via(fn, action_nid, atom_pred, polarity=True):
+def only_via(fn, action_nid, atom_pred, polarity=True, relicense=True):
     """K4: is `action` control dependent on atom being `polarity`?  i.e. every path from entry to the action, and every
     path from the action back to itself, takes the polarity-edge of a condition on a matching atom.
     Returns (ok, offending_path_blocks, n_atoms)"""
@@ -182,6 +182,8 @@ def only_via(fn, action_nid, atom_pred, polarity=True):
     if path is not None:
         return False, path, len(edges)
     # path from the action back to itself avoiding licensing edges (second execution without a new licence)
+    if not relicense:
+        return True, [], len(edges)
     for s in fn.blocks[target]["succ"]:
         if s is None or (target, s) in removed:
             continue
